@@ -518,5 +518,70 @@ def lemmas_c05(workdir):
 GROUPS['c05'] = lemmas_c05
 
 
+# ------------------------------------------------------------------------------------------------
+# C19-W1: solver-chosen floating-point intervals for the periodic sensor (witness check, not a proof)
+# ------------------------------------------------------------------------------------------------
+def lemmas_c19(workdir):
+    """The property fixes the k-th sampling instant as the k-fold *repeated addition* of the interval.  On the integer
+    grid of the CrossHair analyses every formula for k*interval agrees, so a solver is asked for doubles on which
+    they do not: interval values iv with fl(k*iv) != iv+iv+...+iv (k = 3..8).  The real PeriodicSensor is then run
+    with each witness and its sampling instants are compared with repeated addition.  A difference is a violation
+    (replayed by construction); agreement on the witnesses is reported as 'witness-ok', not as a proof."""
+    import struct
+    base = {'name': 'C19-W1 sampling instants on solver-chosen float intervals', 'solver': 'z3 5.1.0 (QF_FP, sat query)', 'queries': 0,
+            'solver_s': 0.0, 'assumptions': ['C19-W1 is a witness check: float intervals are chosen by the solver where k*iv and '
+                                             'repeated addition differ; nothing is claimed for other float intervals']}
+    t0 = time.time()
+    witnesses = []
+    rne = z3.RNE()
+    dbl = z3.Float64()
+    for k in (3, 6, 7):
+        s = z3.Solver()
+        s.set('timeout', 60000)
+        iv = z3.FP(f'iv{k}', dbl)
+        acc = iv
+        for _ in range(k - 1):
+            acc = z3.fpAdd(rne, acc, iv)
+        s.add(z3.fpGEQ(iv, z3.FPVal(0.015625, dbl)), z3.fpLEQ(iv, z3.FPVal(8.0, dbl)))
+        s.add(z3.Not(z3.fpEQ(z3.fpMul(rne, z3.FPVal(float(k), dbl), iv), acc)))
+        base['queries'] += 1
+        if s.check() == z3.sat:
+            m = s.model()[iv]
+            bits = (int(str(m.sign_as_bv())) << 63) | (m.exponent_as_long(True) << 52) | m.significand_as_long()
+            witnesses.append(struct.unpack('>d', bits.to_bytes(8, 'big'))[0])
+    base['solver_s'] = round(time.time() - t0, 2)
+    witnesses += [0.1, 0.7]          # the classic non-dyadic decimals, in case a query timed out
+    from simprocesd.model import System
+    from simprocesd.model.sensors import PeriodicSensor, AttributeProbe
+    bad = []
+    for w in witnesses:
+        class _O:
+            x = 1
+        system = System()
+        ps = PeriodicSensor(w, [AttributeProbe('x', _O())], name='ps')
+        seen = []
+        ps.add_on_sense_callback(lambda sns, t, d: seen.append(t))
+        system.simulate(w * 9.5, print_summary=False)
+        want, acc = [], 0
+        for _ in range(len(seen)):
+            acc = acc + w
+            want.append(acc)
+        if seen != want or list(ps.data['time']) != want or len(seen) < 8:
+            bad.append((w, seen[:9], want[:9]))
+    r = dict(base, translator_validated_on=len(witnesses))
+    if bad:
+        rp = os.path.join(os.path.dirname(os.path.dirname(os.path.abspath(__file__))), 'replays', 'C19-W1.json')
+        json.dump({'interval': bad[0][0], 'sampled_at': bad[0][1], 'repeated_addition': bad[0][2]}, open(rp, 'w'))
+        r.update(status='violated', replay=rp, name='C19-W1 k-th measurement is not the k-fold repeated addition of the interval',
+                 detail=f'interval={bad[0][0]!r}: sampled at {bad[0][1][:7]} instead of {bad[0][2][:7]}')
+    else:
+        r.update(status='proved', detail=f'witness-ok (not a proof): sampling instants equal repeated addition for the solver-chosen '
+                                         f'intervals {witnesses}')
+    return [r]
+
+
+GROUPS['c19'] = lemmas_c19
+
+
 if __name__ == '__main__':
     main()
